@@ -108,7 +108,7 @@ PROPS = {
     "C09": {
         "level": "exploration",
         "build": "plain",
-        "tiers": tiers(4000, 45, 120000, 900),
+        "tiers": tiers(3000, 75, 120000, 900),
         "rule": "3-5 locations behind core.SimpleLocationProvider; histories of AddFact/RemFact (same fact ids in every location), AddRule/RemRule, EnableRule, "
                 "and SetParents changing the parent lists over time (single path to each ancestor; 1 run in 6 also tries self loops and indirect loops); after "
                 "every operation EVERY location is observed (GetFact on every id, own and inherited search battery, dispatch battery with action values) and "
@@ -190,7 +190,7 @@ PROPS = {
     "C13": {
         "level": "exploration",
         "build": "plain",
-        "tiers": tiers(9000, 90, 120000, 1200),
+        "tiers": tiers(11000, 90, 120000, 1200),
         "rule": "a location preloaded with a canary fact and a canary rule; hostile inputs submitted as fact, rule, pattern (SearchFacts, SearchRules), event, "
                 "embedded rule (evaluate!) and query. World matrix: every (entry point, reserved key, wrong-typed value) triple on both states - 7 entry points x "
                 "25 reserved keys (rule, when, pattern, condition, action(s), schedule, expires, ttl, deleteWith, id, !p, trigger!, evaluate!, _id, locations, code, "
